@@ -412,3 +412,49 @@ def run_leg_h(run):
         else:
             run.inconclusive_('history dependence did not reproduce: %r then %r' % (a, b))
     run.leg('H_history_independence', pairs=len(H_TEXTS) ** 2, texts=len(H_TEXTS))
+
+
+# ------------------------------------------------------------------------------------------ 7.8.3: what may follow a numeric literal
+K_783 = 'C03 L: a NumericLiteral may be immediately followed by an IdentifierStart or a DecimalDigit (ES5 7.8.3 forbids it)'
+
+
+def n783_texts():
+    nums = ['3', '3.', '.5', '1e5', '0x1f', '0', '10']
+    tails = ['in [ ]', 'instanceof a', 'g', '$', '_b']        # g: not a hex digit, not an exponent marker
+    return [(nn + t + ' ;', nn + ' ' + t + ' ;') for nn in nums for t in tails]
+
+
+def run_leg_783(run):
+    """the source character right after a NumericLiteral must not be an IdentifierStart or DecimalDigit: the fused spelling is not
+    derivable, whatever the spaced spelling parses to"""
+    from .. import replay as rp
+    from calmjs.parse.parsers.es5 import parse
+    bad = []
+    n = 0
+    for fused, spaced in n783_texts():
+        n += 1
+        try:
+            parse(fused)
+            bad.append(fused)
+        except Exception:
+            pass
+    if bad:
+        rpd = {'property': 'C03', 'input': {'claim': 'n783', 'text': bad[0], 'all': bad[:12]}}
+        ok, detail = rp.run_in_subprocess(rpd)
+        if ok:
+            run.violation(K_783, detail[:400], rpd)
+        else:
+            run.inconclusive_('7.8.3 probe did not reproduce')
+    run.leg('L_783_after_number', texts=n, accepted_although_not_derivable=len(bad))
+
+
+def replay_783(d):
+    from calmjs.parse.parsers.es5 import parse
+    acc = []
+    for t in d['input']['all']:
+        try:
+            parse(t)
+            acc.append(t)
+        except Exception:
+            pass
+    return bool(acc), 'accepted although a NumericLiteral is immediately followed by an IdentifierStart / digit: %r' % acc[:6]
